@@ -41,7 +41,11 @@ func VerifC15_Filter() {
 	left := verifAddr("left", verifrt.Bool("left.v4"))
 	right := verifAddr("right", verifrt.Bool("right.v4"))
 	verifrt.Assume(verifLE128(verifHi(left), verifLo(left), verifHi(right), verifLo(right)))
-	r := &IPRange{left: left, right: right}
+	r := New(left, right) // the public constructor: the harness does not depend on the range's representation
+	verifrt.Assert(r != nil, "filter.range-constructed")
+	if r == nil {
+		return
+	}
 	invert := verifrt.Bool("invert")
 	n := 1 + verifrt.Choice("connections", verifrt.Bound("C15.maxconns", 2, 3))
 	inner := &verifListener{}
